@@ -1,1 +1,439 @@
-// harness stub: nothing here yet
+// Correspondence harness for daemon/src/convert.rs (property C17).
+// Included as the body of `convert::verif_hx` under cfg(all(test, osrg_rustybgp_verif)).
+//
+// Case kinds (first element):
+//   0  [0, flags, code, value]         one path attribute as it arrives on the wire: decoded by
+//                                      PeerCodec::parse_message, then attr_to_api / attr_from_api
+//   1  [1, api_attr]                   an API attribute message: attr_from_api, then the consumers
+//   2  [2, family, api_nlri]           an API NLRI message: net_from_api, then nlri_to_api/encode
+//   3  [3, family, nlri wire bytes]    NLRIs decoded from an MP_REACH / classic UPDATE, round trip
+//   4  [4, addpath, update body]       wide differential part: a whole UPDATE (any family, any
+//                                      attribute kind), every decoded attribute and NLRI round-tripped
+use super::*;
+
+#[allow(dead_code)]
+mod val {
+    include!(concat!(env!("VERIF_HX_DIR"), "/common/val.rs"));
+}
+use val::Val;
+
+use rustybgp_packet::bgp::{self, PeerCodec};
+use std::panic::{AssertUnwindSafe, catch_unwind};
+use std::sync::Arc;
+
+fn i(n: i128) -> Val {
+    Val::I(n)
+}
+fn s_val(s: &str) -> Val {
+    Val::from_bytes(s.as_bytes())
+}
+fn s_of(v: &Val) -> String {
+    // API strings are arbitrary byte strings in the cases; prost strings are UTF-8,
+    // the generators only produce ASCII.
+    String::from_utf8_lossy(&v.bytes()).into_owned()
+}
+
+fn attr_val(a: &Attribute) -> Val {
+    if let Some(v) = a.value() {
+        Val::L(vec![Val::n(a.code()), Val::n(a.flags()), i(0), Val::L(vec![Val::n(v)])])
+    } else {
+        let b = a.binary().unwrap();
+        Val::L(vec![
+            Val::n(a.code()),
+            Val::n(a.flags()),
+            i(if a.is_opaque() { 2 } else { 1 }),
+            Val::from_bytes(b),
+        ])
+    }
+}
+
+fn extcom_val(x: &api::ExtendedCommunity) -> Val {
+    use api::extended_community::Extcom as E;
+    match &x.extcom {
+        None => Val::L(vec![i(0)]),
+        Some(E::TwoOctetAsSpecific(t)) => Val::L(vec![
+            i(1),
+            Val::b(t.is_transitive),
+            Val::n(t.sub_type),
+            Val::n(t.asn),
+            Val::n(t.local_admin),
+        ]),
+        Some(E::Ipv4AddressSpecific(t)) => Val::L(vec![
+            i(2),
+            Val::b(t.is_transitive),
+            Val::n(t.sub_type),
+            s_val(&t.address),
+            Val::n(t.local_admin),
+        ]),
+        Some(E::FourOctetAsSpecific(t)) => Val::L(vec![
+            i(3),
+            Val::b(t.is_transitive),
+            Val::n(t.sub_type),
+            Val::n(t.asn),
+            Val::n(t.local_admin),
+        ]),
+        Some(E::Mup(m)) => Val::L(vec![
+            i(4),
+            Val::n(m.sub_type),
+            Val::n(m.segment_id2),
+            Val::n(m.segment_id4),
+        ]),
+        Some(E::Unknown(u)) => Val::L(vec![i(5), Val::n(u.r#type), Val::from_bytes(&u.value)]),
+        Some(E::TrafficRate(t)) => Val::L(vec![i(6), Val::n(t.asn), Val::n(t.rate.to_bits())]),
+        Some(E::TrafficAction(t)) => Val::L(vec![i(7), Val::b(t.terminal), Val::b(t.sample)]),
+        Some(E::RedirectTwoOctetAsSpecific(t)) => {
+            Val::L(vec![i(8), Val::n(t.asn), Val::n(t.local_admin)])
+        }
+        Some(E::TrafficRemark(t)) => Val::L(vec![i(9), Val::n(t.dscp)]),
+        Some(E::RedirectIpv4AddressSpecific(t)) => {
+            Val::L(vec![i(10), s_val(&t.address), Val::n(t.local_admin)])
+        }
+        Some(E::RedirectFourOctetAsSpecific(t)) => {
+            Val::L(vec![i(11), Val::n(t.asn), Val::n(t.local_admin)])
+        }
+        Some(_) => Val::L(vec![i(99)]),
+    }
+}
+
+fn extcom_of(v: &Val) -> api::ExtendedCommunity {
+    use api::extended_community::Extcom as E;
+    let l = v.list();
+    let e = match l[0].int() {
+        0 => None,
+        1 => Some(E::TwoOctetAsSpecific(api::TwoOctetAsSpecificExtended {
+            is_transitive: l[1].bool(),
+            sub_type: l[2].u32(),
+            asn: l[3].u32(),
+            local_admin: l[4].u32(),
+        })),
+        2 => Some(E::Ipv4AddressSpecific(api::IPv4AddressSpecificExtended {
+            is_transitive: l[1].bool(),
+            sub_type: l[2].u32(),
+            address: s_of(&l[3]),
+            local_admin: l[4].u32(),
+        })),
+        3 => Some(E::FourOctetAsSpecific(api::FourOctetAsSpecificExtended {
+            is_transitive: l[1].bool(),
+            sub_type: l[2].u32(),
+            asn: l[3].u32(),
+            local_admin: l[4].u32(),
+        })),
+        4 => Some(E::Mup(api::MupExtended {
+            sub_type: l[1].u32(),
+            segment_id2: l[2].u32(),
+            segment_id4: l[3].u32(),
+        })),
+        5 => Some(E::Unknown(api::UnknownExtended {
+            r#type: l[1].u32(),
+            value: l[2].bytes(),
+        })),
+        6 => Some(E::TrafficRate(api::TrafficRateExtended {
+            asn: l[1].u32(),
+            rate: f32::from_bits(l[2].u32()),
+        })),
+        7 => Some(E::TrafficAction(api::TrafficActionExtended {
+            terminal: l[1].bool(),
+            sample: l[2].bool(),
+        })),
+        8 => Some(E::RedirectTwoOctetAsSpecific(api::RedirectTwoOctetAsSpecificExtended {
+            asn: l[1].u32(),
+            local_admin: l[2].u32(),
+        })),
+        9 => Some(E::TrafficRemark(api::TrafficRemarkExtended { dscp: l[1].u32() })),
+        10 => Some(E::RedirectIpv4AddressSpecific(api::RedirectIPv4AddressSpecificExtended {
+            address: s_of(&l[1]),
+            local_admin: l[2].u32(),
+        })),
+        11 => Some(E::RedirectFourOctetAsSpecific(api::RedirectFourOctetAsSpecificExtended {
+            asn: l[1].u32(),
+            local_admin: l[2].u32(),
+        })),
+        _ => Some(E::Color(api::ColorExtended { color: 7 })),
+    };
+    api::ExtendedCommunity { extcom: e }
+}
+
+fn api_val(a: &api::Attribute) -> Val {
+    use api::attribute::Attr as A;
+    match &a.attr {
+        None => Val::L(vec![i(0)]),
+        Some(A::Unknown(u)) => Val::L(vec![
+            i(1),
+            Val::n(u.flags),
+            Val::n(u.r#type),
+            Val::from_bytes(&u.value),
+        ]),
+        Some(A::Origin(o)) => Val::L(vec![i(2), Val::n(o.origin)]),
+        Some(A::AsPath(p)) => Val::L(vec![
+            i(3),
+            Val::L(
+                p.segments
+                    .iter()
+                    .map(|s| {
+                        Val::L(vec![
+                            Val::n(s.r#type),
+                            Val::L(s.numbers.iter().map(|n| Val::n(*n)).collect()),
+                        ])
+                    })
+                    .collect(),
+            ),
+        ]),
+        Some(A::NextHop(n)) => Val::L(vec![i(4), s_val(&n.next_hop)]),
+        Some(A::MultiExitDisc(m)) => Val::L(vec![i(5), Val::n(m.med)]),
+        Some(A::LocalPref(m)) => Val::L(vec![i(6), Val::n(m.local_pref)]),
+        Some(A::AtomicAggregate(_)) => Val::L(vec![i(7)]),
+        Some(A::Aggregator(g)) => Val::L(vec![i(8), Val::n(g.asn), s_val(&g.address)]),
+        Some(A::Communities(c)) => Val::L(vec![
+            i(9),
+            Val::L(c.communities.iter().map(|n| Val::n(*n)).collect()),
+        ]),
+        Some(A::OriginatorId(o)) => Val::L(vec![i(10), s_val(&o.id)]),
+        Some(A::ClusterList(c)) => {
+            Val::L(vec![i(11), Val::L(c.ids.iter().map(|s| s_val(s)).collect())])
+        }
+        Some(A::ExtendedCommunities(e)) => {
+            Val::L(vec![i(14), Val::L(e.communities.iter().map(extcom_val).collect())])
+        }
+        Some(A::LargeCommunities(c)) => Val::L(vec![
+            i(21),
+            Val::L(
+                c.communities
+                    .iter()
+                    .map(|x| {
+                        Val::L(vec![
+                            Val::n(x.global_admin),
+                            Val::n(x.local_data1),
+                            Val::n(x.local_data2),
+                        ])
+                    })
+                    .collect(),
+            ),
+        ]),
+        Some(_) => Val::L(vec![i(99)]),
+    }
+}
+
+fn api_of(v: &Val) -> api::Attribute {
+    use api::attribute::Attr as A;
+    let l = v.list();
+    let attr = match l[0].int() {
+        0 => None,
+        1 => Some(A::Unknown(api::UnknownAttribute {
+            flags: l[1].u32(),
+            r#type: l[2].u32(),
+            value: l[3].bytes(),
+        })),
+        2 => Some(A::Origin(api::OriginAttribute { origin: l[1].u32() })),
+        3 => Some(A::AsPath(api::AsPathAttribute {
+            segments: l[1]
+                .list()
+                .iter()
+                .map(|s| api::AsSegment {
+                    r#type: s.at(0).int() as i32,
+                    numbers: s.at(1).list().iter().map(|n| n.u32()).collect(),
+                })
+                .collect(),
+        })),
+        4 => Some(A::NextHop(api::NextHopAttribute { next_hop: s_of(&l[1]) })),
+        5 => Some(A::MultiExitDisc(api::MultiExitDiscAttribute { med: l[1].u32() })),
+        6 => Some(A::LocalPref(api::LocalPrefAttribute { local_pref: l[1].u32() })),
+        7 => Some(A::AtomicAggregate(api::AtomicAggregateAttribute {})),
+        8 => Some(A::Aggregator(api::AggregatorAttribute {
+            asn: l[1].u32(),
+            address: s_of(&l[2]),
+        })),
+        9 => Some(A::Communities(api::CommunitiesAttribute {
+            communities: l[1].list().iter().map(|n| n.u32()).collect(),
+        })),
+        10 => Some(A::OriginatorId(api::OriginatorIdAttribute { id: s_of(&l[1]) })),
+        11 => Some(A::ClusterList(api::ClusterListAttribute {
+            ids: l[1].list().iter().map(s_of).collect(),
+        })),
+        14 => Some(A::ExtendedCommunities(api::ExtendedCommunitiesAttribute {
+            communities: l[1].list().iter().map(extcom_of).collect(),
+        })),
+        21 => Some(A::LargeCommunities(api::LargeCommunitiesAttribute {
+            communities: l[1]
+                .list()
+                .iter()
+                .map(|t| api::LargeCommunity {
+                    global_admin: t.at(0).u32(),
+                    local_data1: t.at(1).u32(),
+                    local_data2: t.at(2).u32(),
+                })
+                .collect(),
+        })),
+        _ => Some(A::Aigp(api::AigpAttribute { tlvs: vec![] })),
+    };
+    api::Attribute { attr }
+}
+
+fn update_with_attrs(attr_bytes: &[u8], nlri: &[u8]) -> Vec<u8> {
+    let total = 16 + 2 + 1 + 2 + 2 + attr_bytes.len() + nlri.len();
+    let mut msg = Vec::with_capacity(total);
+    msg.extend_from_slice(&[0xff; 16]);
+    msg.extend_from_slice(&(total as u16).to_be_bytes());
+    msg.push(2);
+    msg.extend_from_slice(&[0, 0]);
+    msg.extend_from_slice(&(attr_bytes.len() as u16).to_be_bytes());
+    msg.extend_from_slice(attr_bytes);
+    msg.extend_from_slice(nlri);
+    msg
+}
+
+fn wire_attr(flags: u8, code: u8, data: &[u8]) -> Vec<u8> {
+    let mut b = vec![flags, code];
+    if flags & 0x10 != 0 {
+        b.extend_from_slice(&(data.len() as u16).to_be_bytes());
+    } else {
+        b.push(data.len() as u8);
+    }
+    b.extend_from_slice(data);
+    b
+}
+
+fn from_api_val(r: Result<Attribute, Error>) -> Val {
+    match r {
+        Ok(a) => Val::L(vec![i(1), attr_val(&a)]),
+        Err(_) => Val::L(vec![i(0)]),
+    }
+}
+
+fn caught<F: FnOnce() -> Val>(f: F) -> Val {
+    match catch_unwind(AssertUnwindSafe(f)) {
+        Ok(v) => v,
+        Err(_) => Val::L(vec![i(-1)]),
+    }
+}
+
+// kind 0
+fn run_wire(l: &[Val]) -> Val {
+    let flags = l[1].u8();
+    let code = l[2].u8();
+    let data = l[3].bytes();
+    let msg = update_with_attrs(&wire_attr(flags, code, &data), &[]);
+    let mut codec = PeerCodec::new();
+    codec.extended_length = true;
+    let attrs = match codec.parse_message(&msg) {
+        Ok(bgp::ParsedMessage::Update(bgp::ParsedUpdate::Routes {
+            attrs, error_attrs, ..
+        })) => {
+            if error_attrs.is_empty() { attrs } else { Vec::new() }
+        }
+        _ => Vec::new(),
+    };
+    let Some(a) = attrs.first() else {
+        return Val::L(vec![i(0)]);
+    };
+    let apiv = caught(|| api_val(&attr_to_api(a)));
+    let rt = caught(|| from_api_val(attr_from_api(attr_to_api(a))));
+    Val::L(vec![i(1), attr_val(a), apiv, rt])
+}
+
+// GrpcService::local_path's assembly of the attribute list (event/grpc.rs): MP_REACH and
+// NEXT_HOP go to the nexthop field, ORIGINATOR_ID / CLUSTER_LIST / MP_UNREACH are dropped,
+// ORIGIN igp and an empty AS_PATH are supplied when absent.
+fn local_path_attrs(a: &Attribute) -> Vec<Attribute> {
+    let mut attr = Vec::new();
+    match a.code() {
+        Attribute::MP_REACH
+        | Attribute::NEXTHOP
+        | Attribute::ORIGINATOR_ID
+        | Attribute::CLUSTER_LIST
+        | Attribute::MP_UNREACH => {}
+        _ => attr.push(a.clone()),
+    }
+    if !attr.iter().any(|a| a.code() == Attribute::ORIGIN) {
+        attr.push(Attribute::new_with_value(Attribute::ORIGIN, 0).unwrap());
+    }
+    if !attr.iter().any(|a| a.code() == Attribute::AS_PATH) {
+        attr.push(Attribute::empty_as_path());
+    }
+    attr
+}
+
+fn insert_next_to_competitor(a: &Attribute) -> Val {
+    use rustybgp_table::{InsertResult, PeerRole, Source, Table};
+    use std::net::IpAddr;
+    let mut t = Table::new(0);
+    let mk = |k: u8| {
+        Arc::new(Source::new(
+            IpAddr::V4(Ipv4Addr::new(192, 0, 2, k)),
+            IpAddr::V4(Ipv4Addr::new(192, 0, 2, 254)),
+            65000 + k as u32,
+            65000,
+            Ipv4Addr::from(k as u32),
+            PeerRole::Ebgp,
+        ))
+    };
+    let net = Nlri::V4(Ipv4Net { addr: Ipv4Addr::new(10, 0, 0, 0), mask: 8 });
+    let nh = Some(bgp::Nexthop::V4(Ipv4Addr::new(192, 0, 2, 1)));
+    let comp = vec![
+        Attribute::new_with_value(Attribute::ORIGIN, 0).unwrap(),
+        Attribute::empty_as_path(),
+    ];
+    let _ = t.insert(mk(1), Family::IPV4, net.clone(), 0, nh, Arc::new(comp), None, false, false, None, 0);
+    let newsrc = mk(2);
+    let r = t.insert(
+        newsrc.clone(),
+        Family::IPV4,
+        net,
+        0,
+        nh,
+        Arc::new(local_path_attrs(a)),
+        None,
+        false,
+        false,
+        None,
+        0,
+    );
+    match r {
+        InsertResult::Changed(ch) => {
+            let first_is_new = ch
+                .current_paths
+                .first()
+                .map(|p| Arc::ptr_eq(&p.source, &newsrc))
+                .unwrap_or(false);
+            Val::b(first_is_new)
+        }
+        _ => i(-3),
+    }
+}
+
+fn downstream(a: &Attribute) -> Val {
+    let aspl = if a.code() == Attribute::AS_PATH {
+        caught(|| Val::us(a.as_path_length()))
+    } else {
+        Val::L(vec![i(-2)])
+    };
+    let enc = caught(|| Val::us(a.encode_to_bytes().len()));
+    let list = caught(|| {
+        let _ = attr_to_api(a);
+        i(0)
+    });
+    let ins = caught(|| insert_next_to_competitor(a));
+    Val::L(vec![aspl, enc, list, ins])
+}
+
+// kind 1
+fn run_api(l: &[Val]) -> Val {
+    let x = api_of(&l[1]);
+    match attr_from_api(x) {
+        Err(_) => Val::L(vec![i(0)]),
+        Ok(a) => Val::L(vec![i(1), attr_val(&a), downstream(&a)]),
+    }
+}
+
+fn run_case(case: &Val) -> Val {
+    let l = case.list();
+    match l[0].int() {
+        0 => run_wire(l),
+        1 => run_api(l),
+        k => panic!("verif: unknown case kind {}", k),
+    }
+}
+
+#[test]
+fn verif_convert_cases() {
+    val::run_cases(run_case);
+}
